@@ -96,6 +96,14 @@ fn split_sources(canonical: &str, main_first: bool) -> Option<Vec<(String, Strin
         }
         chunks.last_mut().unwrap().push(line);
     }
+    // (dimension audit) The split marks every function of lib.pn `pub`, i.e. exports its name as a symbol.  A program whose
+    // functions are named like C library functions (the random generator uses such names on purpose: private functions have
+    // symbols of their own) would then export `write`, `exit`, `malloc`, ... and clash with the C library itself: that clash is
+    // the program's, not the compiler's.  Such programs are not split.
+    const C_NAMES: [&str; 12] = ["write", "snprintf", "abort", "memcpy", "memset", "printf", "exit", "malloc", "strlen", "entry", "puts", "trap"];
+    if chunks.iter().any(|c| C_NAMES.iter().any(|n| c[0].starts_with(&format!("fn {n}(")))) {
+        return None;
+    }
     let mut lib = String::new();
     let mut main = String::from("import \"lib.pn\";\n");
     let (mut n_lib, mut n_main) = (0, 0);
